@@ -521,6 +521,7 @@ func specBEValue(data []byte, p int, n uint64) uint64 {
 }
 
 // Views of a boxed value (interface{}) for contracts.
+func vcAsString(x interface{}) string         { v, _ := x.(string); return v }
 func vcIsInt64(x interface{}) bool            { _, ok := x.(int64); return ok }
 func vcAsInt64(x interface{}) int64           { v, _ := x.(int64); return v }
 func vcIsBigInt(x interface{}) bool           { _, ok := x.(*big.Int); return ok }
@@ -1040,4 +1041,34 @@ func specSimpleEscape(c byte) rune {
 		return '\\'
 	}
 	return -1
+}
+
+// specEscapeLetter: the letter of the two-character escape the text writer uses for byte c,
+// 0 when it writes c as \xHH instead.
+func specEscapeLetter(c byte) byte {
+	switch c {
+	case 0:
+		return '0'
+	case 7:
+		return 'a'
+	case 8:
+		return 'b'
+	case 9:
+		return 't'
+	case 10:
+		return 'n'
+	case 12:
+		return 'f'
+	case 13:
+		return 'r'
+	case 11:
+		return 'v'
+	case '\'':
+		return '\''
+	case '"':
+		return '"'
+	case '\\':
+		return '\\'
+	}
+	return 0
 }
